@@ -11,6 +11,7 @@ import (
 	"os"
 	"os/exec"
 	"sort"
+	"strings"
 	"sync"
 	"time"
 
@@ -152,7 +153,15 @@ func runSharded(name string, cf *caseFamily, seed uint64, tier string, only int,
 			select {
 			case err := <-done:
 				if err != nil {
-					j.err = fmt.Sprintf("child %d-%d: %v: %s", j.from, j.to, err, tail(se.String(), 3000))
+					// the crash message stands at the head of the dump, the goroutines at its tail: both are kept
+					head := ""
+					for _, ln := range strings.Split(se.String(), "\n") {
+						if strings.HasPrefix(ln, "panic:") || strings.HasPrefix(ln, "fatal error:") || strings.HasPrefix(ln, "runtime:") {
+							head = ln
+							break
+						}
+					}
+					j.err = fmt.Sprintf("child %d-%d: %v: %s … %s", j.from, j.to, err, head, tail(se.String(), 2600))
 				}
 			case <-time.After(20 * time.Minute):
 				cmd.Process.Kill()
